@@ -188,6 +188,13 @@ func sgrSeq(t *simrt.Tape) string {
 // in the deferred-wrap state, where only printing, CR and absolute positioning
 // are defined.
 func genCoreOp(t *simrt.Tape, rows, cols int, pending bool) (string, string) {
+	return genCoreOpAlt(t, rows, cols, pending, false)
+}
+
+// onAlt: the reference is on the alternate screen. Entering it again is left
+// out (whether and with which colour it is cleared a second time differs
+// between terminals).
+func genCoreOpAlt(t *simrt.Tape, rows, cols int, pending, onAlt bool) (string, string) {
 	k := t.Draw(34)
 	if pending {
 		k = []int{0, 0, 1, 4, 4}[t.Draw(5)]
@@ -267,11 +274,49 @@ func genCoreOp(t *simrt.Tape, rows, cols int, pending bool) (string, string) {
 	case 29:
 		return "\x1b8", "DECRC"
 	case 30:
-		m := []string{"1049", "47", "1047"}[t.Draw(3)]
-		return "\x1b[?" + m + "hl"[t.Draw(2):][:1], "altscreen"
+		// the form Vaxis itself uses; 47 and 1047 are not implemented by the
+		// widget and stay in C05's stream only
+		if onAlt {
+			return "\x1b[?1049l", "altscreen"
+		}
+		return "\x1b[?1049" + "hl"[t.Draw(2):][:1], "altscreen"
 	default:
 		return sgrSeq(t), "SGR"
 	}
+}
+
+// isPendingSafe: operations defined in the deferred-wrap state.
+func isPendingSafe(b string) bool {
+	if b == "\r" || !strings.HasPrefix(b, "\x1b") {
+		return true
+	}
+	return strings.HasSuffix(b, "H") || strings.HasSuffix(b, "f")
+}
+
+// enumOps is the fixed list of concrete operations the enumeration phase pairs up.
+func enumOps(rows, cols int) []string {
+	ps := []string{"", "0", "1", "2", fmt.Sprint(rows), fmt.Sprint(cols + 1), "9"}
+	var out []string
+	out = append(out, "z", "中", "\r", "\n", "\x1bD", "\x1bM", "\x1bE", "\x1b7", "\x1b8", "\x1b[?1049h", "\x1b[?1049l", "\x1b[m", "\x1b[1;41m", "\x1b[7;38:5:9m")
+	for _, f := range "ABCDEFGdXP@LMST" {
+		for _, p := range ps {
+			out = append(out, "\x1b["+p+string(f))
+		}
+	}
+	for _, p := range []string{"", "0", "1", "2"} {
+		out = append(out, "\x1b["+p+"J", "\x1b["+p+"K")
+	}
+	for _, a := range []string{"", "1", "2", "3", "9"} {
+		for _, b := range []string{"", "1", "2", "3", "4", "9"} {
+			out = append(out, "\x1b["+a+";"+b+"H")
+		}
+	}
+	for _, a := range []string{"", "1", "2", "3"} {
+		for _, b := range []string{"", "1", "2", "3", "9"} {
+			out = append(out, "\x1b["+a+";"+b+"r")
+		}
+	}
+	return out
 }
 
 // genWildOp draws one unit of C05's stream: the emulator's whole vocabulary
@@ -350,8 +395,30 @@ func (w *termWorld) Build(t *simrt.Tape, spec RunSpec) {
 			n = 1 + t.Draw(6)
 		}
 		ref := simterm.NewTerm(w.rows, w.cols, simterm.Caps{RGB: true, Smulx: true, Base: simterm.PUnicode})
+		if spec.Opts["enum"] != "" {
+			// bounded-exhaustive: every ordered pair of concrete operations
+			// after a fixed set-up, on a tiny screen
+			w.rows, w.cols = 3, 4
+			w.withHost, w.drawer = false, false
+			ref = simterm.NewTerm(w.rows, w.cols, simterm.Caps{RGB: true, Smulx: true, Base: simterm.PUnicode})
+			list := enumOps(w.rows, w.cols)
+			k := spec.Index - optInt(spec.Opts, "base", 0)
+			setups := []string{"ab\r\ncd\x1b[2;2H", "\x1b[44mx中\x1b[2;3r\x1b[3;1Hy", "abcd\x1b[1;4H"}
+			setup := setups[(k/(len(list)*len(list)))%len(setups)]
+			i, j := (k/len(list))%len(list), k%len(list)
+			w.ops = nil
+			for _, b := range []string{setup, list[i], list[j]} {
+				allowed := !ref.PendingWrap() || b == setup || isPendingSafe(b)
+				if !allowed {
+					b = "\r"
+				}
+				ref.Feed([]byte(b))
+				w.ops = append(w.ops, termOp{Bytes: b, Desc: "enum"})
+			}
+			return
+		}
 		for i := 0; i < n; i++ {
-			b, d := genCoreOp(t, w.rows, w.cols, ref.PendingWrap())
+			b, d := genCoreOpAlt(t, w.rows, w.cols, ref.PendingWrap(), ref.OnAlt())
 			ref.Feed([]byte(b))
 			w.ops = append(w.ops, termOp{Bytes: b, Desc: d, Chunk: t.Draw(4)})
 		}
@@ -725,7 +792,16 @@ func (w *termWorld) compareCore(i int, cprRow, cprCol int) {
 		for k := 0; k <= i; k++ {
 			hist += fmt.Sprintf("%s %q; ", w.ops[k].Desc, w.ops[k].Bytes)
 		}
-		w.res.Violate("vt-mismatch", "op:"+op.Desc, "%dx%d screen, after operation %d (%s %q): "+format+"\nhistory: %s", append([]any{w.rows, w.cols, i, op.Desc, op.Bytes}, append(args, hist)...)...)
+		aspect := "cell"
+		switch {
+		case strings.HasPrefix(format, "cursor"):
+			aspect = "cursor"
+		case strings.Contains(format, "reference has"):
+			aspect = "style"
+		case strings.Contains(format, "width"):
+			aspect = "width"
+		}
+		w.res.Violate("vt-mismatch", "op:"+op.Desc+"/"+aspect, "%dx%d screen, after operation %d (%s %q): "+format+"\nhistory: %s", append([]any{w.rows, w.cols, i, op.Desc, op.Bytes}, append(args, hist)...)...)
 	}
 	if w.panicEv != "" {
 		w.res.Diag = append(w.res.Diag, "emulator panic (C05's business): "+firstLines(w.panicEv, 3))
@@ -783,8 +859,15 @@ func (w *termWorld) compareCore(i int, cprRow, cprCol int) {
 				return
 			}
 			es := expectStyle(ecell.Style, simterm.Caps{RGB: true, Smulx: true})
-			if d := es.diffNoLink(rc.Style); d != "" {
-				fail("cell (row %d, col %d) %q: reference has %s", r, c, rc.G, d)
+			rs := rc.Style
+			if rc.Blank() {
+				// an empty cell shows nothing but its background (and what
+				// the attributes make of it): foreground and underline
+				// colour are invisible there
+				es.fg, es.ul = expColor{kind: rs.Fg.Kind, vals: []uint32{rs.Fg.V}}, expColor{kind: rs.Ul.Kind, vals: []uint32{rs.Ul.V}}
+			}
+			if d := es.diffNoLink(rs); d != "" {
+				fail("cell (row %d, col %d) %q: reference has %s (\"want\" is what the emulator shows)", r, c, rc.G, d)
 				return
 			}
 		}
